@@ -44,6 +44,11 @@ def in_process(cx, tier, seed, cases):
     for n, c in enumerate(cases):
         cfmt = "slha" if c["fmt"] == "slha" else flat_fmts[n % 2]
         tg = R.Target(rnd, cfmt, n)
+        # in the SLHA format GM2CalcInput is read after the scale-dependent blocks (SLHAContent!PlanLate)
+        late = cfmt == "slha" and tg.free == "GM2CALCINPUT"
+        c = dict(c, err=c["errLate"] if late else c["err"], late=late)
+        if c["err"] != "none":
+            c["den"] = []
         cid = "c%05d" % n
         lay = []
         lsig = []
@@ -75,7 +80,7 @@ def in_process(cx, tier, seed, cases):
     with open(tr, "w") as fh:
         for cid, c, cfmt, sig, nl, has_canon, tg, lsig in meta:
             fh.write(json.dumps({"e": "Case", "id": cid, "case": cid, "fmt": c["fmt"], "cfmt": cfmt, "file": c["file"],
-                                 "den": c["den"], "err": c["err"], "sig": sig}) + "\n")
+                                 "den": c["den"], "err": c["err"], "late": c["late"], "sig": sig}) + "\n")
             if has_canon:
                 f = filled[cid + "#C"]
                 fh.write(json.dumps({"e": "Canon", "id": cid, "case": cid, "exc": f["exc"], "obs": f["obs"], "sig": sig}) + "\n")
@@ -207,6 +212,8 @@ def result_numbers(stdout, fmt):
             if f and f[0].upper() == "BLOCK" and len(f) > 1:
                 cur = f[1].upper()
             elif cur in want and len(f) >= 2:
+                if cur == "SPINFO" and f[0] not in ("3", "4"):
+                    continue        # 3 / 4 are this program's warnings / errors; the rest is the echo of the input's own SPINFO
                 nums.append("%s[%s]=%s" % (cur, f[0], " ".join(f[1:])))
         return nums
     return [t for t in re.split(r"[\s()%]+", stdout) if NUM.match(t)]
